@@ -125,7 +125,9 @@ def gen_one(rng, i, tier):
             "as_array": bool(rng.random() < 0.5),
             # counts held in a small integer dtype (uint8 images of counts, int16 / int32 tallies): every cell fits, row
             # sums, traces and totals need not
-            "narrow": rng.choice(["u1", "u1", "i2", "i4", "u2"]) if rng.random() < 0.15 else None}
+            "narrow": rng.choice(["u1", "u1", "i2", "i4", "u2"]) if rng.random() < 0.15 else None,
+            # the stack is held by an instance of a user subclass with its own constructor signature
+            "subclass": rng.random() < 0.15}
 
 
 def nontrivial(inp):
@@ -420,7 +422,16 @@ def build(inp) -> Case:
             scls = list(range(N))
             scls_arg = None
     before = arr.copy()
-    rS = common.call(lambda: ConfusionMatrix(matrix=(arr if inp["as_array"] or shape else arr.tolist()), classes=scls_arg))
+    if inp.get("subclass"):
+        # a user subclass with a convenience constructor (not a pass-through of the base signature): the base class's
+        # methods have to keep working on it - one_vs_all() and the per-class metrics build plain ConfusionMatrix objects
+        class ProjectCM(ConfusionMatrix):
+            def __init__(self, data, names=None):
+                super().__init__(matrix=data, classes=names)
+
+        rS = common.call(lambda: ProjectCM(arr if inp["as_array"] or shape else arr.tolist(), scls_arg))
+    else:
+        rS = common.call(lambda: ConfusionMatrix(matrix=(arr if inp["as_array"] or shape else arr.tolist()), classes=scls_arg))
     K = int(np.prod(shape)) if shape else 1
     scale = Fraction(max(1.0, float(arr.sum(axis=(-1, -2)).max()) if arr.size else 1.0))
     eps_s = Fraction(1, 10**12) * scale + (feps * scale if skind == "float" else 0)
